@@ -178,7 +178,7 @@ extern "C" fn handler(_sig: c_int, info: *mut siginfo_t, ctx: *mut c_void) {
         // 1. a page fault at an unmapped address inside the recursive slot
         if st.active && code == SEGV_MAPERR {
             let addr = (*info).si_addr() as u64;
-            if addr >> 39 == st.r && st.r < 256 {
+            if addr >> 39 == st.r && st.r >= 1 && st.r < 256 {
                 let vpage = addr & !0xfff;
                 let (frame, kind) = walk(st, vpage);
                 let slot = if kind == KIND_NOT_PRESENT { st.foreign_slot } else { slot_of(st, frame) };
